@@ -536,6 +536,10 @@ func (d *c16Drv) up(kv map[string]string) string {
 			}
 		}
 		d.files[fid] = cf
+	case len(newRecs) == 1 && len(newFiles) == 0 && len(goneFiles) == 0 && goneRecs == 0 && newRecs[0].Status == types.UploadStarted:
+		// a record in status 'started' whose bytes were cleaned up
+		effect = "residue-nobytes"
+		d.files[fid] = &c16File{id: newRecs[0].Id.String(), url: c16ServeURL + newRecs[0].Id.String(), content: content}
 	default:
 		effect = fmt.Sprintf("odd-recs+%d-%d-files+%d-%d", len(newRecs), goneRecs, len(newFiles), len(goneFiles))
 	}
